@@ -700,6 +700,9 @@ func filterRow(f *btpb.RowFilter, r *btpb.Row) (bool, error) {
 		return count > 0, nil
 	case *btpb.RowFilter_CellsPerColumnLimitFilter:
 		lim := int(f.CellsPerColumnLimitFilter)
+		if lim < 0 {
+			return false, status.Errorf(codes.InvalidArgument, "cells_per_column_limit_filter must not be negative")
+		}
 		for _, fam := range r.Families {
 			for _, col := range fam.Columns {
 				if len(col.Cells) > lim {
@@ -734,6 +737,9 @@ func filterRow(f *btpb.RowFilter, r *btpb.Row) (bool, error) {
 	case *btpb.RowFilter_CellsPerRowLimitFilter:
 		// Grab the first n cells in the row.
 		lim := int(f.CellsPerRowLimitFilter)
+		if lim < 0 {
+			return false, status.Errorf(codes.InvalidArgument, "cells_per_row_limit_filter must not be negative")
+		}
 		for _, fam := range r.Families {
 			for _, col := range fam.Columns {
 				if len(col.Cells) > lim {
@@ -748,6 +754,9 @@ func filterRow(f *btpb.RowFilter, r *btpb.Row) (bool, error) {
 	case *btpb.RowFilter_CellsPerRowOffsetFilter:
 		// Skip the first n cells in the row.
 		offset := int(f.CellsPerRowOffsetFilter)
+		if offset < 0 {
+			return false, status.Errorf(codes.InvalidArgument, "cells_per_row_offset_filter must not be negative")
+		}
 		for _, fam := range r.Families {
 			for _, col := range fam.Columns {
 				if len(col.Cells) > offset {
